@@ -339,3 +339,35 @@ pub fn random_multi_faults(cfg: &AttackCfg, r: &RefRun, seed: u64, count: usize)
     }
     out
 }
+
+const ERR_VARIANTS: &[&str] = &[
+    "KOSConsistencyCheckFailed", "ABitWrongMAC", "AShareWrongMAC", "CommitmentCouldNotBeOpened", "LaANDXorNotZero", "AANDWrongMAC",
+    "BeaverWrongMAC", "InconsistentBroadcast", "InvalidBitValue", "InvalidLength", "EmptyVector", "EmptyMsg", "ConversionErr",
+    "InvalidInputMacForInst", "InvalidOutputMac", "InvalidOutputLabel", "ConflictingInputMask", "MissingOutputShareForOutReg",
+    "InputWithoutValue", "InputWithoutLabel", "MissingGarbledGate", "DecryptionFailed", "MissingSharesForInput", "InstWithoutInput",
+    "SerdeError", "RecvError", "SendError", "PartyDoesNotExist", "WrongInputSize", "InvalidOutputParty",
+];
+
+/// Which error variant an honest party returned (reach measure: every verification step that fired).
+pub fn err_variant(e: &str) -> &'static str {
+    // the most specific one: prefer protocol errors over channel wrappers
+    for v in ERR_VARIANTS {
+        if e.contains(v) && *v != "RecvError" && *v != "SendError" && *v != "SerdeError" {
+            return v;
+        }
+    }
+    for v in ["SerdeError", "RecvError", "SendError"] {
+        if e.contains(v) {
+            return v;
+        }
+    }
+    "other"
+}
+
+pub fn count_honest_errs(out: &mut crate::framework::CaseOut, spec: &MpcSpec, run: &MpcRun) {
+    for h in honest_parties(spec) {
+        if let End::Err(e) = &run.res.ends[h] {
+            out.count(&format!("honest_err:{}", err_variant(e)), 1);
+        }
+    }
+}
